@@ -45,6 +45,18 @@ class SchemaGen:
         self.stats["named"] += 1
         if not self.p["namespaces"]:
             return {"name": base}, (ns + "." + base if ns else base), ns
+        if self.p.get("short_name_clash", True) and (self.defined or self.open) and ch.chance(12):
+            # reuse the SHORT name of an existing type in another namespace (legal: full names differ)
+            pool = [f for (f, _t, _k) in self.defined] + [f for (f, _t) in self.open]
+            short = ch.pick(pool).rsplit(".", 1)[-1]
+            taken = set(pool)
+            for tns in ch.shuffle(NAMESPACES):
+                full = tns + "." + short if tns else short
+                if full not in taken:
+                    self.stats["short_name_clash"] = self.stats.get("short_name_clash", 0) + 1
+                    if tns and ch.draw(2):
+                        return {"name": full}, full, tns
+                    return {"name": short, "namespace": tns}, full, tns
         how = ch.draw(4)
         if how == 0:
             # inherit the enclosing namespace
@@ -98,7 +110,7 @@ class SchemaGen:
         base, lt = self.ch.pick(self.LOGICALS)
         if lt != "decimal":
             return {"type": base, "logicalType": lt}
-        prec = 1 + self.ch.draw(20)
+        prec = 1 + self.ch.draw(20) if self.ch.draw(3) else self.ch.pick([28, 29, 30, 31, 38])
         scale = self.ch.draw(min(prec, 6) + 1)
         if base == "bytes":
             return {"type": "bytes", "logicalType": "decimal", "precision": prec, "scale": scale}
@@ -574,12 +586,16 @@ def mutate_bad(ch, n, d, depth=0):
     if k in ("int", "long"):
         return True, ch.pick(["notanint", None, 1 << 70])
     if k == "string":
-        return True, ch.pick([12, None, b"bytes"])
+        # "\ud800": a str that validates as a string but cannot be encoded as UTF-8
+        return True, ch.pick([12, None, b"bytes", "\ud800"])
     if k == "boolean":
         return False, d   # Python truthiness: most writers accept anything
     if k == "bytes":
         return True, ch.pick([12, None])
-    if k in ("float", "double"):
+    if k == "float":
+        # 1e300 validates as a float but does not fit binary32 (struct raises OverflowError)
+        return True, ch.pick(["x1", None, 1e300])
+    if k == "double":
         return True, ch.pick(["x1", None])
     if k == "enum":
         return True, "NOT_A_SYMBOL"
